@@ -34,21 +34,48 @@ QS = {
 }
 
 
+def _mutable_repr(v):
+    if isinstance(v, (list, dict, set)):
+        return repr(v)[:2000]
+    if hasattr(v, "__dict__") and not isinstance(v, type) and not callable(v):
+        return (type(v).__name__, sorted((k, repr(x)[:200]) for k, x in vars(v).items()))
+    return None
+
+
 def snapshot():
-    snap = {"instructions": tuple(_ins.INSTRUCTIONS), "n": len(_ins.INSTRUCTIONS)}
-    defaults = []
-    for fn in (_ins.CodePackage.__init__,):
-        for dv in (fn.__defaults__ or ()):
-            if hasattr(dv, "__dict__"):
-                defaults.append((type(dv).__name__, sorted((k, repr(v)) for k, v in vars(dv).items())))
-            else:
-                defaults.append(repr(dv))
-    for dv in _cf.CoCoFile._field_defaults.values():
-        if hasattr(dv, "__dict__"):
-            defaults.append((type(dv).__name__, sorted((k, repr(v)) for k, v in vars(dv).items())))
-        else:
-            defaults.append(repr(dv))
-    snap["defaults"] = defaults
+    """module-level mutable state of every cocoasm module: mutable class attributes, mutable default arguments of
+    functions and methods, module globals that are lists/dicts"""
+    import inspect
+    snap = {}
+    for mname, mod in sorted(sys.modules.items()):
+        if not (mname == "cocoasm" or mname.startswith("cocoasm.")) or mod is None:
+            continue
+        for gname, g in sorted(vars(mod).items()):
+            if gname.startswith("__"):
+                continue
+            if isinstance(g, (list, dict, set)):
+                snap["%s.%s" % (mname, gname)] = (len(g), repr(g)[:3000])
+            if inspect.isclass(g) and g.__module__ == mname:
+                for aname, a in sorted(vars(g).items()):
+                    fn = a.__func__ if isinstance(a, (classmethod, staticmethod)) else a
+                    if inspect.isfunction(fn):
+                        for i, dv in enumerate((fn.__defaults__ or ()) + tuple((fn.__kwdefaults__ or {}).values())):
+                            r = _mutable_repr(dv)
+                            if r is not None:
+                                snap["%s.%s.%s#default%d" % (mname, gname, aname, i)] = r
+                    elif not aname.startswith("__"):
+                        r = _mutable_repr(a)
+                        if r is not None:
+                            snap["%s.%s.%s" % (mname, gname, aname)] = r
+                for fname, dv in getattr(g, "_field_defaults", {}).items():
+                    r = _mutable_repr(dv)
+                    if r is not None:
+                        snap["%s.%s._field_defaults.%s" % (mname, gname, fname)] = r
+            if inspect.isfunction(g) and g.__module__ == mname:
+                for i, dv in enumerate(g.__defaults__ or ()):
+                    r = _mutable_repr(dv)
+                    if r is not None:
+                        snap["%s.%s#default%d" % (mname, gname, i)] = r
     return snap
 
 
@@ -82,6 +109,42 @@ def make(pname, qnames):
         return ctx.known(PID, {"part": "product"}, {"fault": fault}), info
     return Ob("C17:product:%s:%s" % (pname, "+".join(qnames) or "none"), body, timeout=600, tags={"part": "product"},
               text="asm(%s); %s; asm(%s)" % (pname, "; ".join("asm(%s)" % q for q in qnames), pname))
+
+
+LIB = ["DELAY LDB #{v}", "DLOOP DECB", " BNE DLOOP", " JMP DDONE", " NOP", "DDONE RTS"]
+P_INC = [" ORG {o}", "PSTART LDA #1", " JSR DELAY", " BRA PSTART", " INCLUDE lib.asm", "PEND NOP"]
+Q_INC = [" ORG $4000", "QSTART LDX #$1234", " LDY #$5678", " NOP", " NOP", " INCLUDE lib.asm", " JSR DELAY", " FDB DDONE"]
+Q_INC2 = [" INCLUDE lib.asm", " INCLUDE lib.asm"]      # rejected: labels defined twice
+
+
+def make_include(sid, seq):
+    """programs that INCLUDE the same file from different places, in one interpreter"""
+    from vlib.harness import MemFS
+
+    def body(ctx):
+        to, o = ctx.lit("H4", "o")
+        ctx.assume(256 <= o)
+        ctx.assume(o <= 60000)
+        tv, v = ctx.lit("H2", "v")
+        lib = [l.format(v=tv) + "\n" for l in LIB]
+        progs = {"P": [l.format(o=to) for l in P_INC], "Q": Q_INC, "Q2": Q_INC2}
+        before = snapshot()
+        with MemFS({"lib.asm": lib}):
+            o0 = meta.observe(assemble(progs["P"]))
+            for q in seq:
+                assemble(progs[q])
+            o1 = meta.observe(assemble(progs["P"]))
+        after = snapshot()
+        fault = None
+        if before != after:
+            fault = "module-level state changed: %s" % sorted(k for k in after if before.get(k) != after.get(k))[:3]
+        elif not meta.same_obs(o0, o1) or o0["kind"] != "ok":
+            fault = "run of P after %s differs from the first (%s / %s)" % (seq, o0["kind"], o1["kind"])
+        info = {"between": seq, "fault": fault}
+        if fault is None:
+            return True, info
+        return ctx.known(PID, {"part": "include"}, {"fault": fault}), info
+    return Ob("C17:include:%s" % sid, body, timeout=300, tags={"part": "include"}, text="asm(P incl lib); %s; asm(P incl lib)" % seq)
 
 
 DUMP = r"""
@@ -129,6 +192,35 @@ def make_process(pname, values):
     return ob
 
 
+def make_process_include():
+    """fresh process vs a warm process that assembled Q (including the same file elsewhere) first"""
+    def body(ctx):
+        import tempfile
+        lib = [l.format(v="$05") + "\n" for l in LIB]
+        P = [l.format(o="$2000") + "\n" for l in P_INC]
+        Q = [l + "\n" for l in Q_INC]
+        with tempfile.TemporaryDirectory() as d:
+            with open(os.path.join(d, "lib.asm"), "w") as f:
+                f.writelines(lib)
+            cwd = os.getcwd()
+            os.chdir(d)
+            try:
+                pq = Program()
+                pq.process(list(Q))
+                pp = Program()
+                pp.process(list(P))
+                warm = {"image": pp.get_binary_array(), "listing": pp.get_statements(), "symbols": pp.get_symbol_table()}
+                r = subprocess.run(["/venv/bin/python", "-c", DUMP % REPO, json.dumps(P)], capture_output=True, text=True, timeout=120, cwd=d)
+                fresh = json.loads(r.stdout.strip().splitlines()[-1])
+            finally:
+                os.chdir(cwd)
+        return fresh == warm, {"fresh_equals_warm": fresh == warm}
+    ob = Ob("C17:process:include", body, timeout=300, tags={"part": "process"}, text="fresh process vs warm process after a program that INCLUDEs the same file", r4=False)
+    ob.native_only = True
+    ob.ncases = 2
+    return ob
+
+
 def obligations(tier, seed):
     import random
     rnd = random.Random(seed + 51)
@@ -138,6 +230,10 @@ def obligations(tier, seed):
     for pname in meta.PROGRAMS:
         for qs in (combos if full else combos[:4] if pname == "hello" else [combos[2], combos[4]]):
             obs.append(make(pname, qs))
+    obs.append(make_include("P-P", []))
+    obs.append(make_include("P-Q-P", ["Q"]))
+    obs.append(make_include("P-Q2-Q-P", ["Q2", "Q"]))
+    obs.append(make_process_include())
     for pname, prog in meta.PROGRAMS.items():
         for _ in range(2 if not full else 6):
             vals = {k: rnd.randint(lo, hi) for k, (cls, lo, hi) in prog["lits"].items()}
